@@ -31,6 +31,11 @@ CLAIMS = {
          "A writer thread executes a generated history while 1-3 reader threads (same Index and a second Index::open) reload and fingerprint searchers and keep some alive; every observation must equal exactly one commit's model within the logical-time window, non-decreasing per reader, and held searchers never change (also after gc and writer shutdown).",
          "schedules are sampled; the only steering is bounded holds of a reader at its n-th segment-file open (SimDir gates); the OnCommitWithDelay file watcher is not exercised",
          "DESIGN.md §3 C05"),
+ "C06": ("exploration",
+         "differential testing of TopDocs (all key kinds, K, offsets, executors) against the exhaustive non-pruning result list of the same searcher with keys from the model documents (proptest)",
+         "Generated tie-heavy corpora and scoring queries that take the block-WAND union/intersection paths and generic boolean trees are ranked with every key kind, K and offset; the result must be exactly the slice [O, O+K) of the complete list sorted by (key, address) - bit-for-bit for exactly comparable keys, by a validity predicate for multi-clause float sums - and paging must enumerate every match once.",
+         "complete list obtained through Collector::collect on the same searcher (no dynamic pruning); tolerance 4e-6 per clause for float sums",
+         "DESIGN.md §3 C06"),
  "C09": ("exploration",
          "round-trip property testing of the document store (StoreWriter/StoreReader directly and through IndexWriter/Searcher) against an independent document model (proptest)",
          "Generated documents of every value type (nested JSON to depth 8, multi-valued fields, huge values, pre-tokenised text, non-stored fields) are written under generated compressor / block size / compression-thread settings, stacked or re-compressed, merged (incl. codec changes and sorted indexes) and read back through Searcher::doc, StoreReader::get, iter and iter(alive) in generated access orders and cache sizes; every value must equal the model.",
